@@ -58,8 +58,10 @@ Fixpoint pop_while (fuel : nat) (p : N -> bool) (minlen : N) (r : list N) (len :
            | [] => r
            end
   end.
+(* rev' is the linear-time reversal (rev' l = rev l by rev_alt): the FAT of a file can have
+   tens of thousands of trailing FREE entries *)
 Definition strip_last_while (p : N -> bool) (minlen : N) (l : list N) : list N :=
-  rev (pop_while (length l) p minlen (rev l) (lenN l)).
+  rev' (pop_while (length l) p minlen (rev' l) (lenN l)).
 
 (* ---- Allocator::validate ---- *)
 Fixpoint mark_sectors (strict : bool) (marker : N) (ids : list N) (fat : list N) : res (list N) :=
